@@ -289,6 +289,8 @@ class Bundle:
                 raise TypeError(f"Bundle roles must be an `RoleSet`, not {val}")
 
             return super().__setattr__(key, val)
+        if not key:
+            raise RuntimeError(f"Cannot add {val} to Bundle {self} under the empty name")
         if _is_reserved(self, key):
             msg = f"Error attempting to over-write protected attribute {key} of Bundle {self}"
             raise RuntimeError(msg)
